@@ -140,9 +140,13 @@ pub open spec fn aes_read_step<R: Read>(o: &AesReaderValid<R>, f: &AesReaderVali
             && at(o.reader.g_bytes(), o.reader.g_pos() + n, 10) == hmac_sha1(o.hmac.key(), o.hmac@ + ct).subrange(0, 10))
 }
 
-// `cipher_from_mode` is NOT verified: Verus rejects its `Box::new(..) as Box<dyn aes_ctr::AesCipher>` ("does not support
-// this cast").  Assumed contract; the precondition is the function's documented panic condition.
-//@use aes_cipher_from_mode nobody
+// T7x in cipher_from_mode: `Box::new(x) as Box<dyn aes_ctr::AesCipher>` (Verus: "does not support this cast").
+// ASSUMED: the unsizing coercion hands out the very object that was boxed (its ghost key, key-stream position and invariant)
+#[verifier::external_body]
+pub fn shim_box_cipher<T: aes_ctr::AesCipher + 'static>(x: T) -> (r: Box<dyn aes_ctr::AesCipher>)
+    ensures r.g_key() == x.g_key(), r.g_k() == x.g_k(), r.g_wf() == x.g_wf()
+{ Box::new(x) }
+//@use aes_cipher_from_mode
 
 //@impl src/aes.rs | impl<R: Read> AesReader<R>
 impl<R: Read> AesReader<R> {
